@@ -38,8 +38,10 @@ THEOREMS = [
     "Jinns.Solve.nan_history_entries",
     "Jinns.Solve.nan_initial_params",
     "Jinns.Solve.nan_stops_training_no_validation",
+    "Jinns.SolveFamily.holdsC18_model",
+    "Jinns.SolveFamily.holdsC18_model_no_validation",
 ]
-LEAN_MODULES = ["JinnsProofs.C18"]
+LEAN_MODULES = ["JinnsProofs.C18", "JinnsProofs.C18Holds"]
 RULE = ("case = one static configuration x (fault route, fault position k in 0..8) variations; the fault position "
         "actually reached is recomputed by the model from the replayed batch stream (a marked point may recur in a "
         "later epoch); non-trivial = a fault occurred at some k >= 1 and the returned parameters differ from the initial "
@@ -113,10 +115,23 @@ def gen_cases(rng, tier):
         ctrl = copy.deepcopy(base)
         ctrl["route"] = "none"
         cases.append({"segs": [{**init, "k": None}, {**ctrl, "k": None}]})
+        if bi == 1:       # the Python-loop path of solve (obs_batch_sharding), with an observation generator
+            sh = copy.deepcopy(base)
+            b = sh["gens"]["data"]["b"]
+            sh["gens"]["obs"] = {"n": 5, "seed": rng.randrange(1 << 30), "vals": [rng.randint(-3, 3) for _ in range(5)],
+                                 "sharding_device": True}
+            sh["sharding"], sh["jit"] = True, False
+            nz_old, nz = sp.n_features(base["gens"]), sp.n_features(sh["gens"])
+            for route in ("loss", "grad-eq", "opt"):
+                seg = _with_route(rng, sh, route)
+                cases.append({"segs": [{**seg, "k": k} for k in ((0, 2, 5) if tier == "quick" else range(KMAX + 1))]})
         if bi % 3 == 0:   # the same through a plain (not jit-wrapped) call of solve
             seg = _with_route(rng, base, rng.choice(["loss", "grad-nn", "opt"]))
             cases.append({"segs": [{**seg, "k": k, "jit": False} for k in (0, 3)]})
-    return cases
+    # the (slow, eager) Python-loop cases go first so that they overlap with the bulk of the work
+    def _slow(c):
+        return bool((c.get("seg") or c["segs"][0]).get("sharding"))
+    return [c for c in cases if _slow(c)] + [c for c in cases if not _slow(c)]
 
 
 def shrink_candidates(case):
@@ -195,7 +210,8 @@ def nontrivial(case, obs):
 def tags(case, obs):
     seg = case["segs"][0]
     out = [f"route={seg['route']}", f"opt={seg['opt']['kind']}",
-           "jit_wrapped" if seg.get("jit", True) else "plain_call"]
+           "python_loop(obs_batch_sharding)" if seg.get("sharding") else
+           ("jit_wrapped" if seg.get("jit", True) else "plain_call")]
     for k, ini in zip(obs.get("_fault_at", []), obs.get("_initial_nan", [])):
         out.append("initial_nan" if ini else ("no_fault" if k is None else f"fault_at={k}"))
     return out
